@@ -520,7 +520,16 @@ func c14WatcherCancels(p *core.Prog, r *core.Report) {
 		return
 	}
 	n := 0
-	for _, a := range f.AnonFuncs {
+	// the watcher: a closure of dispatchInbound, or a function it starts with `go`
+	cands := append([]*ssa.Function{}, f.AnonFuncs...)
+	core.EachInstr(f, func(i ssa.Instruction) {
+		if g, ok := i.(*ssa.Go); ok {
+			if t := g.Call.StaticCallee(); t != nil && t.Blocks != nil && p.InAnalysed(t) {
+				cands = append(cands, t)
+			}
+		}
+	})
+	for _, a := range cands {
 		var sel *ssa.Select
 		core.EachInstr(a, func(i ssa.Instruction) {
 			if s, ok := i.(*ssa.Select); ok && s.Blocking {
